@@ -284,6 +284,24 @@ def check_eval_and_states(ctx):
         ok = any("self._digits, self._dim" in s and "= (bitstring, 2" in s.replace(init.args.vararg.arg, "bitstring") for s in stores) or \
             any(s.replace(init.args.vararg.arg, "bitstring") == "self._digits = bitstring" for s in stores)
         ctx.ob("R11.5", "%s.%s.__init__:digits" % (GATES, k), ok, found=stores, required="_digits = bitstring, _dim = 2", mod=GATES, node=init, sig="digits-" + k)
+    # digits / bits: states unless asked otherwise; the type turned around for effects
+    di = m.func(GATES + ".Digits.__init__")
+    ctx.analysed(GATES + ".Digits.__init__", GATES + ".Bits.__init__")
+    kwd = dict(zip([a.arg for a in di.args.kwonlyargs], di.args.kw_defaults))
+    okd = isinstance(kwd.get("_dagger"), ast.Constant) and kwd["_dagger"].value is False
+    ctx.ob("R11.5", GATES + ".Digits.__init__:default", okd, found=ast.unparse(di.args), required="a state by default (_dagger=False)", mod=GATES, node=di, sig="digits-default")
+    shape.match_stmts(ctx, "R11.5", GATES + ".Digits.__init__:type", [s for s in di.body if isinstance(s, ast.Assign)],
+                      ["dom, cod = Ty(), Ty(Digit(dim)) ** len(digits)", "dom, cod = (cod, dom) if _dagger else (dom, cod)", "self._digits, self._dim = digits, dim"], {di.args.vararg.arg: "digits"}, mod=GATES, node=di,
+                      sig="digits-type", required="no wire in, one wire of that dimension per digit out; exchanged for an effect; the digits and the dimension kept")
+    sup = next((c for c in ast.walk(di) if isinstance(c, ast.Call) and ast.unparse(c.func) == "super().__init__"), None)
+    shape.match(ctx, "R11.5", GATES + ".Digits.__init__:box", sup, "super().__init__(name, dom, cod, _dagger=_dagger)", {}, mod=GATES, node=di, sig="digits-box")
+    bi = m.func(GATES + ".Bits.__init__")
+    kwd = dict(zip([a.arg for a in bi.args.kwonlyargs], bi.args.kw_defaults))
+    okd = isinstance(kwd.get("_dagger"), ast.Constant) and kwd["_dagger"].value is False
+    ctx.ob("R11.5", GATES + ".Bits.__init__:default", okd, found=ast.unparse(bi.args), required="a state by default (_dagger=False)", mod=GATES, node=bi, sig="bits-default")
+    sup = next((c for c in ast.walk(bi) if isinstance(c, ast.Call) and ast.unparse(c.func) == "super().__init__"), None)
+    shape.match(ctx, "R11.5", GATES + ".Bits.__init__:digits", sup, "super().__init__(*bitstring, dim=2, _dagger=_dagger)", {bi.args.vararg.arg: "bitstring"}, mod=GATES, node=bi, sig="bits-digits",
+                required="bits are digits of dimension 2")
     fn = m.func(GATES + ".QuantumGate.__init__")
     asg = next((s for s in ast.walk(fn) if isinstance(s, ast.Assign) and ast.unparse(s.targets[0]) == "self._array"), None)
     ctx.need(asg is not None and isinstance(asg.value, ast.Call) and isinstance(asg.value.func, ast.Attribute) and asg.value.func.attr == "reshape" and len(asg.value.args) == 1,
